@@ -39,6 +39,38 @@ validations:
         minCount: 1
 `
 
+// verifEvalErrProfile compiles, and its evaluation fails (eval_conflict_error).
+const verifEvalErrProfile = `#%Validation Profile 1.0
+profile: EvalErr
+violation:
+  - v1
+rego_extensions: |
+  verif_conflict = 1 { true }
+  verif_conflict = 2 { true }
+validations:
+  v1:
+    message: m
+    targetClass: apiContract.EndPoint
+    rego: |
+      $result = (verif_conflict == 1)
+`
+
+// verifReportFailProfile compiles and evaluates, and its result cannot be turned into a report.
+const verifReportFailProfile = `#%Validation Profile 1.0
+profile: ReportFail
+violation:
+  - v1
+rego_extensions: |
+  violation[m] { m := "not a result node" }
+validations:
+  v1:
+    message: m
+    targetClass: apiContract.EndPoint
+    propertyConstraints:
+      apiContract.path:
+        minCount: 1
+`
+
 // valid; YAML error; structure error; empty document (the parser fails hard); unknown prefix (the generator fails hard)
 var verifProfiles = []string{verifGoodProfile, "profile: [unclosed", "profile: OnlyAName\n", "", verifUnknownPrefixProfile}
 
@@ -208,9 +240,13 @@ func VerifC11EventsNative() {
 			data = `{"@id": "http://example.com/g", "@graph": "http://example.com/x"}`
 		}
 	}
-	if v.ReplayBool("flag:v.eval.err") || v.ReplayBool("flag:v.eval.empty") {
-		fmt.Println("VERIF_NOT_REPRODUCIBLE evaluation faults cannot be provoked from outside")
-		return
+	// evaluation-stage outcomes are provoked through the profile: a run-time conflict makes the
+	// engine's Eval fail, a non-object in a result set makes report building fail (the stage the
+	// stub's empty result set fails in)
+	if v.ReplayBool("flag:v.eval.err") {
+		prof = verifEvalErrProfile
+	} else if v.ReplayBool("flag:v.eval.empty") {
+		prof = verifReportFailProfile
 	}
 	ch := make(chan e.Event, 64)
 	compileFailed := false
